@@ -4,14 +4,27 @@ import WV.Proofs.C16
 namespace WV.Proofs.C16
 open WV WV.Gen WV.C16
 
-theorem legal_ok {T : Nat} {s : St} {o : Op} (hi : Inv T s) (hl : legal s o = true) :
-    (step (Cfg.real T) s o).2 = none := by
+/-- what a clock step that runs the timer in state `connected` does, by the id drawn -/
+theorem expiry_connected {T : Nat} {s : St} (ht : s.traffic = some .connected) :
+    (timerExpired (Cfg.real T) s).2 = (if freshNext s = true then none else some .assertionError) := by
+  simp only [timerExpired, ttInput, ht, real_tbl]
+  simp [TrafficTimer.table, ttOutputs, sprt_none]
+  split <;> simp_all
+
+theorem expiry_idle {T : Nat} {s : St} (ht : s.traffic = some .idle_traffic) :
+    (timerExpired (Cfg.real T) s).2 = none := by
+  simp [timerExpired, ttInput, ht, TrafficTimer.table, ttOutputs]
+
+/-- a legal operation either completes or fails the one assert on the random source -/
+theorem legal_res {T : Nat} {s : St} {o : Op} (hi : Inv T s) (hl : legal s o = true) :
+    (step (Cfg.real T) s o).2 = none ∨
+      ((step (Cfg.real T) s o).2 = some .assertionError ∧ freshNext s = false) := by
   obtain ⟨h1, h2, h3, h4, h5, h6, h7, h8, h9, h10, h11, h12, h13⟩ := hi
   cases o with
   | tick =>
     simp only [step, tick]
     cases htm : s.timer with
-    | none => rfl
+    | none => left; rfl
     | some d =>
       obtain ⟨hm, _, _, _⟩ := h6 d htm
       obtain ⟨c, hc, ho, htr⟩ := h4 (by simp [hm, inUse])
@@ -21,12 +34,17 @@ theorem legal_ok {T : Nat} {s : St} {o : Op} (hi : Inv T s) (hl : legal s o = tr
         | some b => cases b <;> simp_all
       simp only
       split
-      · rcases htr hrl with ht | ht <;> simp [timerExpired, ttInput, ht, TrafficTimer.table]
-      · rfl
+      · rcases htr hrl with ht | ht
+        · rw [expiry_connected (by exact ht)]
+          by_cases hf : freshNext s = true
+          · left; simp only [freshNext_eq] at hf ⊢; simp [hf]
+          · right; simp only [freshNext_eq] at hf ⊢; simp [hf]
+        · left; exact expiry_idle (by exact ht)
+      · left; rfl
   | stall n =>
     simp only [step, stall]
     cases htm : s.timer with
-    | none => rfl
+    | none => left; rfl
     | some d =>
       obtain ⟨hm, _, _, _⟩ := h6 d htm
       obtain ⟨c, hc, ho, htr⟩ := h4 (by simp [hm, inUse])
@@ -36,23 +54,30 @@ theorem legal_ok {T : Nat} {s : St} {o : Op} (hi : Inv T s) (hl : legal s o = tr
         | some b => cases b <;> simp_all
       simp only
       split
-      · rcases htr hrl with ht | ht <;> simp [timerExpired, ttInput, ht, TrafficTimer.table]
-      · rfl
-  | pause => rfl
-  | resume => rfl
-  | cpause k => rfl
-  | cresume k => rfl
+      · rcases htr hrl with ht | ht
+        · rw [expiry_connected (by exact ht)]
+          by_cases hf : freshNext s = true
+          · left; simp only [freshNext_eq] at hf ⊢; simp [hf]
+          · right; simp only [freshNext_eq] at hf ⊢; simp [hf]
+        · left; exact expiry_idle (by exact ht)
+      · left; rfl
+  | pause => left; rfl
+  | resume => left; rfl
+  | cpause k => left; rfl
+  | cresume k => left; rfl
+  | rnd ids => left; rfl
   | start =>
     simp only [legal, beq_iff_eq] at hl
-    simp [step, mgrInput, hl, Manager.table, mgrOutputs, mgrOutput]
+    left; simp [step, mgrInput, hl, Manager.table, mgrOutputs, mgrOutput]
   | please b =>
     simp only [legal, beq_iff_eq] at hl
-    simp [step, mgrInput, hl, Manager.table, mgrOutputs, mgrOutput]
+    left; simp [step, mgrInput, hl, Manager.table, mgrOutputs, mgrOutput]
   | reconnecting =>
     simp only [legal, beq_iff_eq] at hl
-    simp [step, mgrInput, hl, Manager.table, mgrOutputs, mgrOutput]
+    left; simp [step, mgrInput, hl, Manager.table, mgrOutputs, mgrOutput]
   | reconnect =>
     simp only [legal, Bool.or_eq_true, beq_iff_eq] at hl
+    left
     rcases hl with (hl | hl) | hl
     · obtain ⟨c, hc, _, _⟩ := h4 (by simp [hl, inUse])
       simp [step, mgrInput, hl, Manager.table, mgrOutputs, mgrOutput, hc]
@@ -60,12 +85,14 @@ theorem legal_ok {T : Nat} {s : St} {o : Op} (hi : Inv T s) (hl : legal s o = tr
     · simp [step, mgrInput, hl, Manager.table, mgrOutputs, mgrOutput]
   | stop =>
     simp only [legal, Bool.and_eq_true, bne_iff_ne, ne_eq] at hl
+    left
     cases hm : s.mgr <;> simp [hm] at hl
     all_goals try simp [step, mgrInput, hm, Manager.table, mgrOutputs, mgrOutput]
     obtain ⟨c, hc, _, _⟩ := h4 (by simp [hm, inUse])
     simp [hc]
   | pong id =>
     simp only [legal] at hl
+    left
     simp only [step, gotPong]
     split
     · rename_i hany
@@ -79,22 +106,30 @@ theorem legal_ok {T : Nat} {s : St} {o : Op} (hi : Inv T s) (hl : legal s o = tr
         intro hne
         have := (h3 (h2 hne)).2.1
         simp [this] at hany
-      rcases htr hrl with ht | ht <;> simp [ttInput, ht, TrafficTimer.table]
+      rcases htr hrl with ht | ht <;> simp [ttInput, ht, TrafficTimer.table, ttOutputs]
     · rfl
   | made =>
     simp only [legal, beq_iff_eq] at hl
     obtain ⟨hc, ho, htm, htr⟩ := h5 (by simp [hl, inUse])
     simp only [step, connMade]
     by_cases hrl : s.role = some true
-    · rcases htr with ht | ht <;>
-        simp [hrl, ht, ttInput, TrafficTimer.table, TrafficTimer.init, ttOutputs, sendPingResetTimer, sendPing, htm, ho,
-          mgrInput, hl, Manager.table, mgrOutputs]
-    · simp [hrl, mgrInput, hl, Manager.table, mgrOutputs]
+    · by_cases hf : freshNext s = true
+      · left
+        simp only [freshNext_eq] at hf
+        rcases htr with ht | ht <;>
+          simp [hrl, ht, ttInput, TrafficTimer.table, TrafficTimer.init, ttOutputs, sprt_none, htm, hf, pinged,
+            mgrInput, hl, Manager.table, mgrOutputs]
+      · right
+        simp only [freshNext_eq] at hf ⊢
+        rcases htr with ht | ht <;>
+          simp [hrl, ht, ttInput, TrafficTimer.table, TrafficTimer.init, ttOutputs, sprt_none, htm, hf]
+    · left; simp [hrl, mgrInput, hl, Manager.table, mgrOutputs]
   | lost =>
     simp only [legal, Bool.or_eq_true, Bool.and_eq_true, beq_iff_eq, bne_iff_ne, ne_eq] at hl
     have hu : inUse s.mgr = true := by
       rcases hl with (hl | hl) | hl <;> simp [hl, inUse]
     obtain ⟨c, hc, ho, htr⟩ := h4 hu
+    left
     simp only [step, connLost]
     by_cases hrl : s.role = some true
     · have hm : s.mgr = .CONNECTED ∨ s.mgr = .STOPPING := by
@@ -107,5 +142,11 @@ theorem legal_ok {T : Nat} {s : St} {o : Op} (hi : Inv T s) (hl : legal s o = tr
     · have ht := h2 hrl
       rcases hl with (hl | hl) | hl <;>
         simp [ht, ho, hrl, mgrInput, hl, Manager.table, mgrOutputs, mgrOutput]
+
+theorem legal_ok {T : Nat} {s : St} {o : Op} (hi : Inv T s) (hl : legal s o = true)
+    (hf : freshNext s = true) : (step (Cfg.real T) s o).2 = none := by
+  rcases legal_res hi hl with h | ⟨_, h⟩
+  · exact h
+  · rw [hf] at h; cases h
 
 end WV.Proofs.C16
